@@ -166,6 +166,9 @@ const (
 )
 
 func (p *Path) runtimePanic(fr *frame, pos token.Pos, msg string) {
+	if p.spec {
+		panic(specAbort{})
+	}
 	site := p.pos(pos)
 	if fr != nil && pos == token.NoPos {
 		site = fr.fn.String()
@@ -425,6 +428,9 @@ func runFrame(fr *frame) {
 		r := recover()
 		if pe, ok := r.(pathEnd); ok {
 			panic(pe)
+		}
+		if sa, ok := r.(specAbort); ok {
+			panic(sa)
 		}
 		if _, ok := r.(targetPanic); !ok {
 			// engine bug or Go runtime error inside the engine: convert to an unsupported path end with details
